@@ -148,7 +148,8 @@ func c09BuildCorpus(an textanalyzer.Analyzer, texts map[string]string) *c09Corpu
 	return c
 }
 
-// Scores: doc -> BM25 score for the documents containing >= 1 of the (distinct) terms.
+// Scores: doc -> BM25 score for the documents containing >= 1 of the terms; one summand per analysed query term
+// (a stem that occurs twice in the query counts twice: the sum runs over the query terms).
 func (c *c09Corpus) Scores(terms []string) map[string]float64 {
 	out := map[string]float64{}
 	for id, tf := range c.TF {
@@ -525,8 +526,8 @@ func c09GenQuery(t *rapid.T, an textanalyzer.Analyzer, dim int, hot []string) c0
 				dup = true
 			}
 		}
-		if dup {
-			continue // the domain is queries with DISTINCT analysed terms
+		if dup && rapid.IntRange(0, 2).Draw(t, "keep-repeated-stem") != 0 {
+			continue // most queries have distinct analysed terms; one repeated stem in three is kept
 		}
 		for _, x := range ts {
 			seen[x] = true
@@ -896,9 +897,6 @@ func (x *c09Exec) checkpoint() string {
 	}
 	for qi, q := range x.c.Queries {
 		terms := x.an.Analyze(q.Text)
-		if !c09Distinct(terms) {
-			continue
-		}
 		if m := x.checkText(c09Title, q, tcorp.Scores(terms), iid, ext); m != "" {
 			return fmt.Sprintf("query %d %q on field %q: %s", qi, q.Text, c09Title, m)
 		}
@@ -984,8 +982,8 @@ func (x *c09Exec) probes(corp *c09Corpus, iid map[string]uint32, ext map[uint32]
 	for qi, q := range x.c.Queries {
 		terms := x.an.Analyze(q.Text)
 		if !c09Distinct(terms) {
-			x.count("rt:query-with-repeated-terms-skipped")
-			continue
+			// the BM25 sum runs over the analysed query terms: a stem that occurs twice in the query is two summands
+			x.count("rt:query-with-repeated-terms")
 		}
 		want := corp.Scores(terms)
 		if m := x.checkText(c09Field, q, want, iid, ext); m != "" {
@@ -1260,7 +1258,7 @@ func (x *c09Exec) checkHybrid(q c09Query, want map[string]float64, corp *c09Corp
 
 // ------------------------------------------------------------------ entry point
 
-const c09EngineRule = "rapid-generated histories on one text-enabled index (english/italian analyser, euclidean/cosine, float32, M=16): an initial corpus of 1-25 documents with 0-8-word texts over a 34-word English/Italian vocabulary (stop words, inflections, case variants, repeats, documents without the field; one case in three also maintains a second text field 'title') followed by 1-18 ops (1-40 in the thorough tier) out of overwrite of the text / change of the field to number, bool, list or null / update of another field / delete / re-add of a deleted id / new insert / VAddBatch of 2-4 new or re-added ids / SaveSnapshot / RewriteAOF / Close+Open / VCompress (float16 or int8); 1-3 probes (1-4 query words with distinct analysed terms incl. stop words and out-of-corpus words, alpha in {0,1,0.5,random}, query vector, top-k) are evaluated after EVERY op against BM25 recomputed from scratch from the VGet read-out; non-trivial = at some check point after >= 1 overwrite / string-to-non-string change / delete of an indexed text, some query matches >= 2 documents"
+const c09EngineRule = "rapid-generated histories on one text-enabled index (english/italian analyser, euclidean/cosine, float32, M=16): an initial corpus of 1-25 documents with 0-8-word texts over a 34-word English/Italian vocabulary (stop words, inflections, case variants, repeats, documents without the field; one case in three also maintains a second text field 'title') followed by 1-18 ops (1-40 in the thorough tier) out of overwrite of the text / change of the field to number, bool, list or null / update of another field / delete / re-add of a deleted id / new insert / VAddBatch of 2-4 new or re-added ids / SaveSnapshot / RewriteAOF / Close+Open / VCompress (float16 or int8); 1-3 probes (1-4 query words incl. stop words, out-of-corpus words and repeated stems (one BM25 summand per analysed query term), alpha in {0,1,0.5,random}, query vector, top-k) are evaluated after EVERY op against BM25 recomputed from scratch from the VGet read-out; non-trivial = at some check point after >= 1 overwrite / string-to-non-string change / delete of an indexed text, some query matches >= 2 documents"
 
 func TestVerif_C09_engine(t *testing.T) {
 	col := verifkit.New("C09", "engine", c09EngineRule)
